@@ -116,6 +116,7 @@ def run(ctx):
     # range invariant on wide sweeps (every register a 32-bit value after any step), addresses pushed to the edges
     tasks = []
     nw = 1500 if q else 30000
+    cw = S.class_word_list(ctx.seed, 3 if q else 30)
     for i in range(16):
         name, over = CONFIGS[i % len(CONFIGS)]
         over = dict(over)
@@ -123,7 +124,7 @@ def run(ctx):
             over['memory_list'] = [{'mem_type': 'RAM', 'beginning': 0, 'end': 256},
                                    {'mem_type': 'RAM', 'beginning': 0xFFFFFF00, 'end': 0x100000000}]
         tasks.append((sweep_edges, dict(name='edge-%s-%d' % (name, i), seed=ctx.seed + 100 + i, modes='all', cfg=over,
-                                        hi=bool(i % 2), words=S.random_words(random.Random(ctx.seed * 41 + i), nw))))
+                                        hi=bool(i % 2), words=S.random_words(random.Random(ctx.seed * 41 + i), nw, classes=cw))))
     for i in range(4):
         tasks.append((S.sweep_t16, dict(name='t16-%d' % i, seed=ctx.seed + i, lo=i * 16384, hi=(i + 1) * 16384,
                                          itpos='rotate', modes='all')))
